@@ -42,6 +42,8 @@ def gen_field(rng, kind, name, dec=".", ths="", types=None, allow_empty_cells=Tr
         candidates = list(cells)
         if allow_empty_cells and kind != "fixed":
             candidates.append("")
+            # cells of nothing but white space are not empty: the type and rule decide them like any other cell
+            candidates.extend([" ", "   ", "\t", "\u00a0"])
         for cell in candidates:
             if cell != "" and not storable(cell, kind, width):
                 continue
